@@ -491,6 +491,71 @@ impl ReactionTriggerBundle for DynBundle
     }
 }
 
+/// The same keys in the same order, handed to the framework as a plain bundle, a pair, a triple or a nested tuple of
+/// bundles (the framework's tuple implementations of `ReactionTriggerBundle` are what user code normally goes through).
+#[derive(Debug, Clone, Copy)]
+pub enum Shaped
+{
+    One(DynBundle),
+    Two((DynBundle, DynBundle)),
+    Three((DynBundle, DynBundle, DynBundle)),
+    Nested(((DynBundle, DynBundle), DynBundle)),
+}
+
+impl Shaped
+{
+    pub fn new(b: DynBundle) -> Self
+    {
+        let keys: Vec<KeyR> = b.keys.iter().flatten().copied().collect();
+        let n = keys.len();
+        // the shape is a function of the bundle alone
+        let tag = keys.iter().fold(n, |acc, k| acc * 7 + match k
+        {
+            KeyR::Broadcast(t) | KeyR::AnyEntityEvent(t) | KeyR::Insertion(t) | KeyR::Mutation(t) | KeyR::Removal(t) | KeyR::ResourceMutation(t) => 1 + *t as usize,
+            KeyR::EntityEvent(_, t) | KeyR::EntityInsertion(_, t) | KeyR::EntityMutation(_, t) | KeyR::EntityRemoval(_, t) => 3 + *t as usize,
+            KeyR::Despawn(_) => 5,
+        });
+        let part = |from: usize, to: usize| DynBundle::new(&keys[from.min(n)..to.min(n)]);
+        match tag % 4
+        {
+            0 => Shaped::One(b),
+            1 => Shaped::Two((part(0, (n + 1) / 2), part((n + 1) / 2, n))),
+            2 => Shaped::Three((part(0, n / 3), part(n / 3, 2 * n / 3 + 1), part(2 * n / 3 + 1, n))),
+            _ => Shaped::Nested(((part(0, 1), part(1, n / 2 + 1)), part(n / 2 + 1, n))),
+        }
+    }
+}
+
+impl ReactionTriggerBundle for Shaped
+{
+    fn len(&self) -> usize
+    {
+        match self { Shaped::One(b) => b.len(), Shaped::Two(b) => b.len(), Shaped::Three(b) => b.len(), Shaped::Nested(b) => b.len() }
+    }
+
+    fn collect_reactor_types(self, func: &mut impl FnMut(ReactorType))
+    {
+        match self
+        {
+            Shaped::One(b) => b.collect_reactor_types(func),
+            Shaped::Two(b) => b.collect_reactor_types(func),
+            Shaped::Three(b) => b.collect_reactor_types(func),
+            Shaped::Nested(b) => b.collect_reactor_types(func),
+        }
+    }
+
+    fn register_triggers(self, commands: &mut Commands, handle: &ReactorHandle)
+    {
+        match self
+        {
+            Shaped::One(b) => b.register_triggers(commands, handle),
+            Shaped::Two(b) => b.register_triggers(commands, handle),
+            Shaped::Three(b) => b.register_triggers(commands, handle),
+            Shaped::Nested(b) => b.register_triggers(commands, handle),
+        }
+    }
+}
+
 fn resolve_key(case: &Case, key: Key) -> KeyR
 {
     let ent = |e: u8| case.pool[(e as usize) % case.pool.len()];
@@ -858,7 +923,7 @@ fn perform(c: &mut Commands, action: Action, resolved: &Resolved)
                 RegMode::Cleanup => ReactorMode::Cleanup,
                 RegMode::Revokable => ReactorMode::Revokable,
             };
-            let token = c.react().with(bundle, SystemCommand(cmd), m);
+            let token = c.react().with(Shaped::new(bundle), SystemCommand(cmd), m);
             if let (Some(_), Some(token)) = (token_slot, token)
             {
                 let (sys, keys) = keys_of(resolved);
@@ -868,6 +933,7 @@ fn perform(c: &mut Commands, action: Action, resolved: &Resolved)
         Action::Fresh{ uid, def, api, bundle, token_slot } =>
         {
             let _ = token_slot;
+            let bundle = Shaped::new(bundle);
             let (sys, keys) = keys_of(resolved);
             match api
             {
